@@ -29,7 +29,7 @@ def run(rep):
         if s.get('late_d1'):
             delays = s['faults']['restart_delays'][:1] if quick else s['faults']['restart_delays']      # quick: the shortest delay only
 
-            late.append({**s, 'faults': {**s['faults'], 'restart_delays': delays}, 'dev_window': (2000, 2350 + max(d or 0 for d in delays))})
+            late.append({**s, 'faults': {**s['faults'], 'restart_delays': delays}, 'dev_window': (s['faults']['from_ms'], s['faults']['from_ms'] + 350 + max(d or 0 for d in delays))})
 
     fam    = [s for s in fam if 'silent' not in s['name'] and not s.get('late_d1')]
 
